@@ -1,5 +1,5 @@
 (* C05 — property theorems.  Nothing but statements, `exact`, Print Assumptions (and one Example). *)
-From G05 Require Import Routing Spec Check Proofs PacProofs AddrProofs RouteProofs Obligations.
+From G05 Require Import Routing Spec FlagSyntax Check Proofs PacProofs AddrProofs RouteProofs Obligations.
 
 (* direct-domains > localhost-direct > (external function > static upstream > PAC) > none:
    the proxy function composed by configureProxy computes the short spec, for every configuration,
@@ -42,6 +42,30 @@ Theorem T05_connect_to_meaning : forall r rules h p,
 Proof. exact (fun r rules h p => conj (rule_matches_meaning r h p) (conj (rule_target_meaning r h p)
                (conj (redirect_first_match r rules h p) (redirect_unparsable rules)))). Qed.
 Print Assumptions T05_connect_to_meaning.
+
+(* The syntax of a --connect-to value (host.go ParseHostPortPair: the regular expression under Go's leftmost-first
+   submatch semantics, bracket removal, HostPort.Validate): EVERY accepted string is, group by group, exactly
+   src_host ":" src_port ":" dst_host ":" dst_port; the rule's ports are port numbers or absent and its hosts are
+   the host groups without brackets - the parser never invents or moves a field. *)
+Theorem T05_connect_to_flag_sound : forall s r,
+  parse_pair s = Some r ->
+  port_valid (src_port r) = true /\ port_valid (dst_port r) = true /\
+  has_byte 91 (src_host r) = false /\ has_byte 93 (dst_host r) = false /\
+  exists h1 h2, s = h1 ++ [58] ++ src_port r ++ [58] ++ h2 ++ [58] ++ dst_port r /\
+                src_host r = strip_brackets h1 /\ dst_host r = strip_brackets h2.
+Proof. exact parse_pair_sound. Qed.
+Print Assumptions T05_connect_to_flag_sound.
+
+(* ... and the documented forms are accepted with the meaning they spell (evaluated instances: names, IPv4,
+   bracketed IPv6, empty fields; an unbracketed IPv6 source host takes the leading colons as the expression does). *)
+Example T05_example_flag :
+  parse_pair (b "origin.test:80:rt.test:9000") = Some (mkrule (b "origin.test") (b "80") (b "rt.test") (b "9000")) /\
+  parse_pair (b ":::") = Some (mkrule [] [] [] []) /\
+  parse_pair (b ":443:[::1]:") = Some (mkrule [] (b "443") (b "::1") []) /\
+  parse_pair (b "10.0.0.1::[fe80::1]:8080") = Some (mkrule (b "10.0.0.1") [] (b "fe80::1") (b "8080")) /\
+  parse_pair (b "::1:80:a.test:1") = Some (mkrule (b "::1") (b "80") (b "a.test") (b "1")) /\
+  parse_pair (b "a.test:80:b.test") = None /\ parse_pair (b "a.test:65536::") = None /\ parse_pair (b "-a:::") = None.
+Proof. exact (conj eq_refl (conj eq_refl (conj eq_refl (conj eq_refl (conj eq_refl (conj eq_refl (conj eq_refl eq_refl))))))). Qed.
 
 (* Main refinement: for both paths (CONNECT through martian's connect, plain requests through the Transport as
    modelled) the party the connection is opened to, whether TLS is spoken to it and what it is used as are
